@@ -947,7 +947,7 @@ def completion_budget(scn, st):
 
 # ---------------------------------------------------------------------------- model replay
 KF_IDS = ["lost-inherited-invalidation", "idonly-added-streams", "reset-not-invalidated", "inflight-update",
-          "merge-not-restarted-after-convert", "stale-view-store"]
+          "merge-not-restarted-after-convert", "stale-view-store", "detach-reset-data-tags"]
 F_ID, F_PROTO, F_PORT, F_HOST, F_TABS, F_TREL, F_TAGS, F_DATA = 1, 2, 4, 8, 16, 32, 64, 128
 
 
@@ -1188,7 +1188,8 @@ def run_model(exe, text, tag):
 
 # ---------------------------------------------------------------------------- known findings
 KF_PROP = {"lost-inherited-invalidation": "C06", "idonly-added-streams": "C06", "reset-not-invalidated": "C16",
-           "inflight-update": "C16", "stale-view-store": "C16", "merge-not-restarted-after-convert": "C09"}
+           "inflight-update": "C16", "stale-view-store": "C16", "merge-not-restarted-after-convert": "C09",
+           "detach-reset-data-tags": "C06"}
 OTHER_KNOWN = {"view-time-reftime": "C06", "convert-missing-stream-hang": "C09", "neg-unsat-tag-inline": "C06", "neg-subquery-tag-inline": "C06", "subquery-tag-inline": "C06"}
 
 
